@@ -4,6 +4,7 @@ import IoraModel.Lemmas.ConnectSyncC
 import IoraModel.Lemmas.ConnectSyncD
 import IoraModel.Lemmas.ConnectSyncE
 import IoraModel.Lemmas.ConnectSyncF
+import IoraModel.Lemmas.ConnectSyncR
 /-! Invariants of the C04 model (`Model/ConnectSync.lean`), preserved by every step of every schedule.
 
 The definitions, the invariant `Inv`, `Inv_init` and the helper lemmas/tactics are in `Lemmas/ConnectSyncBase.lean`; the sixteen
@@ -19,6 +20,7 @@ theorem step_inv {s : State} (h : Inv s) (st : Step) : Inv (step s st) := by
   | cancel c => exact doCancel_inv h c
   | cEnter c => exact doEnter_inv h c
   | cConnect c => exact doConnect_inv h c
+  | cRefuse c => exact doRefuse_inv h c
   | cRegister c => exact doRegister_inv h c
   | cPark c => exact doPark_inv h c
   | cWake c t => exact doWake_inv h c t
